@@ -64,6 +64,9 @@ Record(vs, dv, cov, ln) ==
   /\ IF vs = {} THEN TRUE ELSE TLCSet(1, Merge(TLCGet(1), vs, ln))
   /\ IF dv = {} THEN TRUE ELSE TLCSet(2, Merge(TLCGet(2), dv, ln))
   /\ IF cov \subseteq TLCGet(3) THEN TRUE ELSE TLCSet(3, TLCGet(3) \cup cov)
+  /\ LET hot == {c \in cov : c[1] = "Grant"} IN
+     IF hot = {} THEN TRUE
+     ELSE TLCSet(5, [k \in DOMAIN TLCGet(5) \cup hot |-> (IF k \in DOMAIN TLCGet(5) THEN TLCGet(5)[k] ELSE 0) + (IF k \in hot THEN 1 ELSE 0)])
   /\ TLCSet(4, ln)
 
 -----------------------------------------------------------------------------
@@ -141,6 +144,10 @@ Coverage(B, T, e) ==
   CASE e.ev = "instr" -> {<<"Instruct", e.pact, e.nx.act, e.out>>}
     [] e.ev = "update" /\ e.v \in DOMAIN B.veh /\ e.v \in DOMAIN T.veh ->
          {<<"Update", B.veh[e.v].act, T.veh[e.v].act, e.out>>}
+         \cup (IF Grant(B, T, e.v)
+               THEN {<<"Grant", IF \E w \in DOMAIN B.veh \ {e.v} : StillWaiting(B, T, w, B.veh[e.v].tgt, B.veh[e.v].plug)
+                                THEN "others_left_waiting" ELSE "nobody_else_waiting", "", "">>}
+               ELSE {})
     [] e.ev = "pre" -> {<<"Pre", e.fn, "", "">>}
     [] OTHER -> {<<e.ev, "", "", "">>}
 
@@ -403,7 +410,7 @@ TraceInit ==
   /\ TLog[1].ev = "init"
   /\ S = Apply(Empty, TLog[1])
   /\ H = HInit(Apply(Empty, TLog[1]), TLog[1])
-  /\ TLCSet(1, <<>>) /\ TLCSet(2, <<>>) /\ TLCSet(3, {}) /\ TLCSet(4, 1)
+  /\ TLCSet(1, <<>>) /\ TLCSet(2, <<>>) /\ TLCSet(3, {}) /\ TLCSet(4, 1) /\ TLCSet(5, <<>>)
 
 TraceNext ==
   /\ l <= Len(TLog)
@@ -425,6 +432,7 @@ Done ==
   /\ PrintT(<<"VIOL", ToJson(RegToSet(TLCGet(1), "p", "c", "s"))>>)
   /\ PrintT(<<"DIVG", ToJson(RegToSet(TLCGet(2), "p", "c", "s"))>>)
   /\ PrintT(<<"COVR", ToJson(TLCGet(3))>>)
+  /\ PrintT(<<"CNTS", ToJson({[k |-> c[2], n |-> TLCGet(5)[c]] : c \in DOMAIN TLCGet(5)})>>)
   /\ PrintT(<<"LINES", TLCGet(4), Len(TLog)>>)
   /\ TLCGet(4) = Len(TLog)
 =============================================================================
